@@ -274,6 +274,36 @@ func C15(c *fw.Ctx) {
 			judge(c, pr, judgeOpts{SigPrefix: "shared-container"})
 		}
 	}
+	// every array of up to three elements over {"", "x", 5, nil, []}: each element shows, in order
+	{
+		pool := []func() *model.N{func() *model.N { return model.Str("") }, func() *model.N { return model.Str("x") }, func() *model.N { return model.Num(5) }, model.Nil, func() *model.N { return model.Arr() },
+			func() *model.N { return model.Bin("+", model.Str(""), model.Str("")) }}
+		for n := 1; n <= 3; n++ {
+			idx := make([]int, n)
+			for {
+				if c.Mine() {
+					var el, el2 []*model.N
+					for _, i := range idx {
+						el = append(el, pool[i]())
+						el2 = append(el2, pool[i]())
+					}
+					judge(c, []*model.N{model.Print(model.Arr(el...)), model.Print(model.Arr(model.Arr(el2...), model.Num(2))), model.Print(model.Obj([]string{"k"}, []*model.N{model.Arr(pool[idx[0]](), model.Str("t"))}))}, judgeOpts{SigPrefix: "small-arrays"})
+				}
+				k := n - 1
+				for k >= 0 {
+					idx[k]++
+					if idx[k] < len(pool) {
+						break
+					}
+					idx[k] = 0
+					k--
+				}
+				if k < 0 {
+					break
+				}
+			}
+		}
+	}
 	// nested containers of the above
 	if c.Mine() {
 		prog := []*model.N{model.Print(model.Arr(model.Str("ক"), model.Arr(model.Num(1.5), model.Nil(), model.Bool(true)), model.Obj([]string{"z", "a"}, []*model.N{model.Str("é"), model.Arr(model.Num(1000000))})))}
